@@ -1,4 +1,4 @@
-import Tahoe.Immutable.LemmasBlocks
+import Tahoe.Immutable.LemmasChain
 /-! C02 — immutable downloads never return wrong bytes.
 
 Model: Tahoe/Immutable/Integrity.lean (`satisfy` = `Share._get_satisfaction`, `fetchSegment` = one
@@ -29,7 +29,7 @@ consumer-side (decrypted) version with CTR as a position-wise xor. -/
 | a rejected share cannot weaken later validation (seeds C02-a, C02-b) | `rejected_share_cannot_poison_node` (the node invariant survives every pass, accepted or rejected, of any share) |
 | the reader receives the exact original bytes or an error | `read_prefix_correct` (`done` ⇒ exact range; otherwise `error`/`pending` with a correct prefix). That a read does END (no hang) is C46; that it ends in `done` when k good shares exist is C03 — not covered here |
 | any bytes delivered before an error are a correct prefix of the requested range | `read_prefix_correct`, `read_prefix_correct_plaintext` (for every segment-size guess, both retry paths) |
-| composition of the four share-level stage theorems into one statement about `satisfy` over whole histories | NOT proved as one theorem (each stage is proved for every node whose trees are sound; the sequential plumbing through `runStages`, incl. the other shares' block trees, is missing). The end-to-end claim does not depend on it: it rests on the ciphertext hash tree only |
+| composition of the share-level stages: over any history of the download node, a block any share reports COMPLETE is genuine | `accepted_block_genuine_history` (node invariant `ShInv` over the share hash tree and the block hash trees of all share numbers, kept by every pass of every share and by `process_blocks`) |
 | the verifier flags the corruption | C45 (`verified_good_implies_all_valid`) |
 -/
 namespace Tahoe.C02
@@ -251,6 +251,22 @@ theorem accepted_block_genuine (E : Env H) (cfg : Cfg) (hstrict : StrictPresence
     simp [blockLeaves, List.getElem?_map, List.getElem?_range hj]
     rfl
 
+/-- **accepted_block_genuine_history**: after ANY history of the download node — passes of any shares (valid or
+    invalid share numbers) with arbitrary answers, accepted or rejected at any stage, interleaved with
+    `process_blocks` of arbitrary block sets — a block that a pass of share number `shnum < N` reports
+    COMPLETE for segment `segnum` is the block the uploader produced for that share and segment. (Forged block
+    data, block hash trees, block hash roots and share hash chains can therefore only make a share be rejected.) -/
+theorem accepted_block_genuine_history (E : Env H) (cfg : Cfg) (prm : Params) (ser : UEB H → Bytes)
+    (encode : Nat → Bytes → Nat → Bytes) (ct : Bytes) (sz : Sizes) (S : Setup E cfg prm ser encode ct sz)
+    (pick : List Nat → Nat) (decode : Nat → List (Nat × Bytes) → Bytes) (history : List (NodeEv H))
+    (shnum segnum : Nat) (hsh : shnum < prm.n) (v : View H) (b : Bytes)
+    (h : (satisfy E cfg pick (upload E prm encode ser ct).cap
+            (history.foldl (stepEv E cfg pick decode (upload E prm encode ser ct).cap)
+              (Node.init H (upload E prm encode ser ct).cap)) shnum segnum v).1 = .block b) :
+    b = (upload E prm encode ser ct).block shnum segnum := by
+  have h0 : ShInv E prm ser encode ct sz (Node.init H (upload E prm encode ser ct).cap) := Or.inl ⟨rfl, rfl, rfl⟩
+  exact (satisfy_sh S pick shnum segnum v _ (history_sh S pick decode history _ h0)).2 b h hsh
+
 /-- **ct_hash_stage_sound** / **rejected_share_cannot_poison_node**: every pass of `_get_satisfaction`, of any
     share, with any answers, accepted or rejected at any stage, leaves the download node in a state where either
     no UEB was accepted yet or the stored UEB is the published one and the ciphertext hash tree is a partial copy
@@ -359,6 +375,17 @@ example :
         { exHonest 1 with blockHashes := fun _ => some (SymH.raw 5) }).1 = .dead .badHash ∧
     (satisfy exE Cfg.asIs (fun _ => 0) cap nd0 0 1
         { exHonest 1 with ctHashes := fun _ => some (SymH.raw 5) }).1 = .dead .badHash := by
+  decide
+
+/-- a history on the example file: a forged pass, an honest pass, `process_blocks`, then the honest share reports
+    the genuine second block and the forged one is CORRUPT -/
+example :
+    let cap := (upload exE exPrm exEncode exSer exCt).cap
+    let dec : Nat → List (Nat × Bytes) → Bytes := fun _ bl => (bl.head?.map (·.2)).getD []
+    let nd := [NodeEv.pass 0 0 { exHonest 0 with block := [9, 9] }, NodeEv.pass 0 0 (exHonest 0),
+               NodeEv.proc 0 [(0, [10, 11])]].foldl (stepEv exE Cfg.asIs (fun _ => 0) dec cap) (Node.init SymH cap)
+    (satisfy exE Cfg.asIs (fun _ => 0) cap nd 0 1 (exHonest 1)).1 = .block ((upload exE exPrm exEncode exSer exCt).block 0 1) ∧
+    (satisfy exE Cfg.asIs (fun _ => 0) cap nd 0 1 exForged).1 = .corrupt := by
   decide
 
 /-- the same ciphertext encoded with segment size 1: its UEB is refused under the first cap -/
